@@ -76,7 +76,9 @@ class QueueProcessing(Scheduling):
         # The starting number of temporary resources is the maximum
         # number of (greedy) allocations we can make
         max_allocations_iteration = len(temporary_resources)
-        for task in task_pool:
+        # task_pool is a set: iterate in a fixed order so that the schedule
+        # does not depend on the interpreter's hash seed
+        for task in sorted(task_pool, key=lambda t: t.id):
             # If we have exhausted all possible allocations for this
             # timest ep, there no need to keep iterating
             if len(allocations) >= max_allocations_iteration:
